@@ -16,6 +16,7 @@ import tempfile
 import numpy as np
 from affine import Affine
 
+from .. import gen
 from ..fakes import FsAudit
 from ..kernel import Monitor, call, hsig, WORK_DIR
 
@@ -45,6 +46,8 @@ def make_config(rng: random.Random):
                intermediate=rng.choice([False, False, True, "zstd", {"compress": "lzw"}]), dest=rng.choice(["file", "file", "mem"]), existing=rng.choice([None, None, "no-overwrite", "overwrite"]),
                api=rng.choice(["write_cog", "write_cog", "layers"]), data_seed=rng.randint(0, 10**6), nodata_via=rng.choice(["attrs", "attrs", "kw", "kw-over-attrs"]), data_kind=rng.choice(["random", "patchy", "patchy", "constant"]),
                dest_as=rng.choice(["str", "Path"]), ambient_env=rng.choice([None, None, None, {"GDAL_DISABLE_READDIR_ON_OPEN": "EMPTY_DIR"}, {"GDAL_DISABLE_READDIR_ON_OPEN": "TRUE", "GDAL_CACHEMAX": 64}, {"GDAL_NUM_THREADS": "2", "CPL_DEBUG": "OFF"}]))
+    if rng.random() < 0.2:
+        cfg["crs"] = rng.choice(gen.CUSTOM_RASTER_CRS)  # a raster in a user-defined CRS (no authority code)
     if isinstance(ovr, list):
         # GDAL refuses level lists that collapse the image to 1x1 more than once: keep levels that leave >= 2 px on the longer side
         ovr = [L for L in ovr if max(ny, nx) / L >= 2]
@@ -88,9 +91,10 @@ def build_array(cfg):
 
     ny, nx, layout, ns = cfg["ny"], cfg["nx"], cfg["layout"], cfg["ns"]
     r = 0.001 if cfg["crs"] == "EPSG:4326" else 10.0
-    A = Affine(r, 0, 100 * r, 0, -r, 500 * r)
+    ox_, oy_ = gen.crs_origin(cfg["crs"], r)
+    A = Affine(r, 0, ox_, 0, -r, oy_)
     if cfg["rotated"]:
-        A = Affine.translation(100 * r, 500 * r) * Affine.rotation(30) * Affine.scale(r, -r)
+        A = Affine.translation(ox_, oy_) * Affine.rotation(30) * Affine.scale(r, -r)
     gb = GeoBox((ny, nx), A, cfg["crs"])
     shape = {"YX": (ny, nx), "SYX": (ns, ny, nx), "YXS": (ny, nx, ns)}[layout]
     nprng = np.random.default_rng(cfg["data_seed"])
@@ -250,7 +254,7 @@ def run_config(mon: Monitor, cfg, workdir: str) -> None:
             with opener() as src:
                 back = src.read()
                 ok_pix = back.shape == exp.shape and str(back.dtype) == cfg["dtype"] and np.array_equal(back, exp)
-                ok_geo = src.transform.almost_equals(gb.transform, 1e-12 * max(1.0, abs(gb.transform.c), abs(gb.transform.f))) and src.crs is not None and src.crs.to_epsg() == int(cfg["crs"].split(":")[1])
+                ok_geo = src.transform.almost_equals(gb.transform, 1e-12 * max(1.0, abs(gb.transform.c), abs(gb.transform.f))) and gen.crs_read_back_ok(src.crs, cfg["crs"], gb.transform.c, gb.transform.f)
                 ok_nodata = (src.nodata == cfg["nodata"]) or (cfg["nodata"] is None and src.nodata is None)
                 blk = src.block_shapes
                 bs = cfg["blocksize"] or 512
@@ -295,6 +299,9 @@ def run_config(mon: Monitor, cfg, workdir: str) -> None:
 
 
 PINNED = [
+    # rasters in user-defined CRSs that PROJ would "identify" as a registered one (C15-7: file created with EPSG:<guess> instead of the definition)
+    dict(ny=40, nx=50, layout="YX", ns=1, dtype="uint16", nodata=None, crs="+proj=utm +zone=33 +ellps=intl +units=m +no_defs", rotated=False, blocksize=None, ovr_blocksize=None, overviews="default", windowed=False, intermediate=False, dest="file", existing=None, api="write_cog", data_seed=31),
+    dict(ny=64, nx=48, layout="SYX", ns=2, dtype="float32", nodata=-9999, crs="+proj=tmerc +lat_0=49 +lon_0=-2 +k=0.9996012717 +x_0=400000 +y_0=-100000 +ellps=airy +units=m +no_defs", rotated=False, blocksize=16, ovr_blocksize=16, overviews="external", windowed=False, intermediate=False, dest="mem", existing=None, api="layers", data_seed=32),
     # pathlib.Path destination x existing file x overwrite=False, on the supplied-overviews path and on the ordinary one (C15-6)
     dict(ny=40, nx=50, layout="YX", ns=1, dtype="uint16", nodata=None, crs="EPSG:3857", rotated=False, blocksize=None, ovr_blocksize=None, overviews="external", windowed=False, intermediate=False, dest="file", existing="no-overwrite", api="write_cog", data_seed=26, dest_as="Path"),
     dict(ny=40, nx=50, layout="YX", ns=1, dtype="uint16", nodata=None, crs="EPSG:3857", rotated=False, blocksize=None, ovr_blocksize=None, overviews="external", windowed=False, intermediate=False, dest="file", existing="no-overwrite", api="layers", data_seed=27, dest_as="Path"),
